@@ -16,8 +16,10 @@ HARNESSES = [
     dict(name="local6", pkg="./plugins/dhcp6/local/", test="TestVerifC19",
          files=[("plugins/dhcp6/local/zz_verif_c19_local6_test.go", "harness/C19/zz_verif_c19_local6_test.go")]),
 ]
-# every recorded defect is fixed in /repo; a regression to an old behaviour is a plain VIOLATION (no defect variant is consulted)
-VARIANTS = ["repaired"]
+# "repaired" = /repo HEAD + the three open fix patches (fixes/C19_opt82_cut_fragment, C19_reply_skip_empty_options,
+# C19_giaddr_ipv4_only); "head" = /repo HEAD exactly (Coq variant Head).  The Coq variant Defective (code before ALL fixes) is not
+# consulted by the check: a regression to one of the five committed fixes matches neither variant -> VIOLATION.
+VARIANTS = ["repaired", "head"]
 RULE = ("Structured generators, bytes compared exactly with the Coq model, plus property-level observables "
         "(independent RFC 1071 verification h/u, length consistency l, zero UDP checksum z, gopacket option decode gp, "
         "getter read-back get, DHCPv6 re-parse). Frames: ip4/udp4/ip6/wrap with payload sizes {0,1,2,odd,even,~300,1472, "
@@ -804,39 +806,29 @@ def _kv(line):
 
 
 def signature(case, impl, models):
+    """only the three OPEN findings get a signature that is listed as known:"""
     t = case.split()
     op = t[0]
-    kv = _kv(impl)
-    if op in ("ip4", "pool", "resolved") and kv.get("z") == "1":
-        return "udp4-zero-checksum"
-    if op in ("o82ins", "o82strip"):
-        n = sum(1 for c, _, _ in walk4(unhx(t[-1])) if c == 82)
-        # the recorded defect leaves exactly one client option 82 behind
-        left = kv.get("gp", "").split(".").count("82")
-        want = 0 if (op == "o82strip" or t[1] == "drop") else 1
-        return "opt82-multiple-existing" if n >= 2 and left == want + 1 else "opt82-other"
-    if op in ("setu32", "setip", "proxy"):
+    if op in ("wrap", "relayreply4", "proxyreply4") and impl.split(" ")[0] == "panic" and models.get("repaired", "").split(" ")[0] == "nil":
+        return "wrap-non-ipv4-address-panic"
+    if op in ("o82ins", "relay4"):
         pkt = unhx(t[-1])
-        codes = [51, 54, 58, 59] if op == "proxy" else [int(t[1])]
-        for code in codes:
-            inst = [l for c, _, l in walk4(pkt) if c == code]
-            if len(inst) >= 2 or (len(inst) == 1 and inst[0] != 4):
-                return "setoption-existing-not-replaced"
-        if op == "proxy" and int(t[2]) * 7 >= M32:
-            return "proxy-t2-uint32-overflow"
-        if _truncated_tail(pkt):
-            return "setoption-truncated-tail"
-        return "setoption-other"
-    if op == "lt6":
-        return "v6-t2-uint32-overflow" if int(t[1]) * 4 >= M32 else "lt6-other"
+        if len(pkt) >= 240 and _truncated_tail(pkt):
+            return "opt82-truncated-tail-fragment"
+        return "opt82-other"
     if op in ("pool", "resolved"):
-        # only when some option value really exceeds 255 bytes (DNS list, route bytes, raw option)
-        nd = int(t[9 if op == "pool" else 10])
-        over = nd >= 64 or any("," in x and x.count(",") == 1 and len(x.split(",")[1]) > 510 for x in t)
-        if op == "resolved":
-            rest = t[11 + nd:]
-            over = over or int(rest[0]) >= 29
-        return "reply-option-over-255" if over else "reply-other"
+        # a lease parameter whose address-valued option comes out empty: nil netmask, non-IPv4 router / server-id, DNS list
+        # without a single IPv4 entry
+        def v4(x):
+            return len(x) == 8 or (len(x) == 32 and x.startswith("00000000000000000000ffff"))
+        i0 = 9 if op == "pool" else 10
+        nd = int(t[i0])
+        dns = t[i0 + 1:i0 + 1 + nd]
+        mask = t[7] if op == "pool" else t[8]
+        addrs = [t[6]] if op == "pool" else [x for x in (t[6], t[7]) if x != "nil"]
+        if mask == "-" or any(not v4(a) for a in addrs) or (nd > 0 and not any(v4(d) for d in dns)):
+            return "reply-zero-length-address-option"
+        return "reply-other"
     return op + "-other"
 
 
@@ -849,6 +841,11 @@ def classify(case, impl, model):
             return "P", what
     if ki.get("z") == "1" and km.get("z") == "0":
         return "P", "UDP/IPv4 checksum field is 0x0000 (means: no checksum) where RFC 768 requires 0xFFFF"
+    if "gp" in ki and "gp" in km and case.split()[0] in ("o82ins", "relay4") and case.split()[1 if case.startswith("o82ins") else 2] not in ("keep", "drop"):
+        if "82" not in ki["gp"].split(".") and "82" in km["gp"].split("."):
+            return "P", "the forwarded message decodes WITHOUT the relay's option 82 (independent decoder: %s)" % ki["gp"][:80]
+    if case.split()[0] in ("pool", "resolved") and "gp=" in impl and ":-" in impl.split("gp=")[1] and ":-" not in model.split("gp=")[-1]:
+        return "P", "server reply carries a zero-length option (RFC 2132 minimum length 4 for mask/router/DNS/server-id)"
     if impl.split(" ")[0] in ("panic", "hang") and not model.startswith(impl.split(" ")[0]):
         return "P", "builder %s where the model returns a message" % impl.split(" ")[0]
     if impl.split(" ")[0] == "ALIAS" or "ALIAS" in impl.split():
